@@ -44,6 +44,7 @@ type Exec struct {
 	spawnedRepeatedly map[*ast.FuncLit]bool
 	usedAfter         map[types.Object]bool
 	localAssigns      map[*types.Var][]ast.Expr
+	assignsSeen       map[ast.Node]bool
 	resultOverride    []Term
 	wfSeen            map[string]bool
 	extraNames        map[string]Term
@@ -501,6 +502,14 @@ func (x *Exec) assign(st *State, fr *Frame, s *ast.AssignStmt) {
 				}
 			}
 			vals = append(vals, v)
+		}
+	}
+	if ta, ok := ast.Unparen(s.Rhs[0]).(*ast.TypeAssertExpr); ok && len(s.Rhs) == 1 && ta.Type != nil {
+		// v, ok := e.(*T) on an owned value tree: v is a child borrowed from e, writes go back
+		if id, ok := ast.Unparen(s.Lhs[0]).(*ast.Ident); ok && id.Name != "_" {
+			if o := x.info.ObjectOf(id); o != nil && x.isValuePtrType(o.Type()) {
+				x.borrow[o] = ta.X
+			}
 		}
 	}
 	for i, l := range s.Lhs {
